@@ -1,4 +1,5 @@
 import LicenseExpr.Lemmas.NormalForm
+import LicenseExpr.Lemmas.EqTrans
 /-!
 # Lemmas/Atoms — `simp` introduces no literal
 -/
@@ -44,5 +45,55 @@ theorem simp_lits (lt : Expr A → Expr A → Bool) (e : Expr A) : ∀ a ∈ lit
     simp only [List.mem_map, List.mem_attach, true_and, Subtype.exists] at hy
     obtain ⟨b, hb, rfl⟩ := hy
     exact (mem_literals_node a op args).mpr ⟨b, hb, ih ⟨b, hb⟩ a hay⟩
+
+/-- expressions that are `==` mention the same literals -/
+theorem eqE_literals_sub : ∀ (n : Nat) (x y : Expr A), sizeOf x ≤ n → eqE x y = true → ∀ a ∈ literals x, a ∈ literals y := by
+  intro n
+  induction n with
+  | zero => intro x y hx; cases x <;> simp at hx <;> omega
+  | succ n ih =>
+    intro x y hx he a ha
+    cases x with
+    | atom u =>
+      cases y with
+      | atom v =>
+        have : u = v := (eqE_atom_atom u v).mp he
+        subst this; exact ha
+      | node o l => rw [eqE_atom_node] at he; cases he
+    | node o l =>
+      cases y with
+      | atom v => rw [eqE_node_atom] at he; cases he
+      | node o' l' =>
+        obtain ⟨_, h1, _⟩ := (eqE_node_iff _ _ _ _).mp he
+        obtain ⟨z, hz, haz⟩ := (mem_literals_node a o l).mp ha
+        obtain ⟨z', hz', hzz'⟩ := h1 z hz
+        have hsz : sizeOf z ≤ n := by
+          have := List.sizeOf_lt_of_mem hz
+          simp at hx; omega
+        exact (mem_literals_node a o' l').mpr ⟨z', hz', ih z z' hsz hzz' a haz⟩
+
+theorem eqE_literals (x y : Expr A) (h : eqE x y = true) (a : A) : a ∈ literals x ↔ a ∈ literals y :=
+  ⟨eqE_literals_sub _ x y (Nat.le_refl _) h a, eqE_literals_sub _ y x (Nat.le_refl _) (eqE_symm_imp _ _ h) a⟩
+
+/-- what a node contains mentions only literals of the node -/
+theorem containsE_literals (t x : Expr A) (h : containsE t x = true) : ∀ a ∈ literals x, a ∈ literals t := by
+  cases t with
+  | atom u => simp [containsE] at h
+  | node o ts =>
+    intro a ha
+    simp only [containsE, Bool.or_eq_true] at h
+    rcases h with h | h
+    · simp only [memE, List.any_eq_true] at h
+      obtain ⟨y, hy, hxy⟩ := h
+      exact (mem_literals_node a o ts).mpr ⟨y, hy, (eqE_literals x y hxy a).mp ha⟩
+    · cases x with
+      | atom v => simp at h
+      | node o' xs =>
+        simp only [Bool.and_eq_true, beq_iff_eq, List.all_eq_true] at h
+        obtain ⟨z, hz, haz⟩ := (mem_literals_node a o' xs).mp ha
+        have := h.2 z hz
+        simp only [memE, List.any_eq_true] at this
+        obtain ⟨y, hy, hzy⟩ := this
+        exact (mem_literals_node a o ts).mpr ⟨y, hy, (eqE_literals z y hzy a).mp haz⟩
 
 end LE
